@@ -7,6 +7,9 @@
 import Drv.Util
 import Nq.Pop3
 import Nq.Spec.Pop3Ref
+import Nq.Pop3Fault
+import Nq.Spec.Pop3FaultRef
+import Nq.Spec.Pop3SizeRef
 
 open Nq Nq.Pop3 Drv
 
@@ -180,6 +183,167 @@ def handleP (st : Stats) (line : String) (fs : List String) : IO Stats := do
     | _, _, _, _, _, _, _, _ => IO.println s!"DISAGREE unparsable line {line.take 300}"; return { st with disagree := st.disagree + 1 }
   | _ => IO.println s!"DISAGREE unparsable line {line.take 300}"; return { st with disagree := st.disagree + 1 }
 
+/-! ### sessions with failing system calls (F lines, session 4) -/
+
+def parseEventsF (s : String) : Option (List Pop3F.EvF) :=
+  if s == "-" then some [] else
+  (s.splitOn ",").mapM (fun e =>
+    match e.toList with
+    | 'd' :: r => (unhex (String.ofList r)).map Pop3F.EvF.data
+    | 'v' :: r => (unhex (String.ofList r)).map Pop3F.EvF.vanish
+    | ['o'] => some Pop3F.EvF.armOpen
+    | 'r' :: r => (String.ofList r).toNat?.map Pop3F.EvF.armRead
+    | _ => none)
+
+def parseFaults (s : String) : Option Pop3F.Faults :=
+  match s.splitOn ";" with
+  | [a, g, u, n] => do
+    let paths (x : String) : Option (List Bytes) := if x == "-" then some [] else (x.splitOn ".").mapM unhex
+    let nums (x : String) : Option (List Nat) := if x == "-" then some [] else (x.splitOn ".").mapM String.toNat?
+    let a ← paths a; let g ← paths g; let u ← nums u; let n ← nums n
+    pure { a := a, g := g, u := u, n := n }
+  | _ => none
+
+/-- events → what the fault reference sees -/
+def toFEv (evs : List Pop3F.EvF) : List Pop3FRef.FEv :=
+  let rec go : List Pop3F.EvF → Bytes → List Pop3FRef.FEv → List Pop3FRef.FEv
+    | [], _, acc => acc.reverse
+    | .vanish p :: rest, cur, acc => go rest cur (.vanish p :: acc)
+    | .armOpen :: rest, cur, acc => go rest cur (.armOpen :: acc)
+    | .armRead _ :: rest, cur, acc => go rest cur (.armRead :: acc)
+    | .data b :: rest, cur, acc =>
+      let (cur', acc') := b.foldl (fun (ca : Bytes × List Pop3FRef.FEv) c =>
+        if c == LF then ([], .line ca.1.reverse :: ca.2) else (c :: ca.1, ca.2)) (cur, acc)
+      go rest cur' acc'
+  go evs [] []
+
+def handleF (st : Stats) (line : String) (fs : List String) : IO Stats := do
+  match fs with
+  | [uidS, hdS, nowS, filesS, evS, fltS, o1, o2, codeS, afterS, _chS] =>
+    match uidS.toNat?, nowS.toNat?, parseFiles filesS, parseEventsF evS, parseFaults fltS, unhex o1, unhex o2, codeS.toInt?, parseFiles afterS with
+    | some uid, some now, some files, some evs, some flt, some out1, some out2, some code, some after =>
+      let h := hashBytes (line.toUTF8.toList.take 4096)
+      let fresh := !st.seen.contains h
+      let havedir := hdS == "1"
+      let mut st := { st with cases := st.cases + 1, seen := st.seen.insert h }
+      st := st.bump "fault_cases"
+      if !flt.a.isEmpty then st := st.bump "f_stat_scan"
+      if !flt.g.isEmpty then st := st.bump "f_stat_getlist"
+      if !flt.u.isEmpty then st := st.bump "f_unlink"
+      if !flt.n.isEmpty then st := st.bump "f_rename"
+      if evs.any (fun e => match e with | .armOpen => true | _ => false) then st := st.bump "f_open"
+      if evs.any (fun e => match e with | .armRead _ => true | _ => false) then st := st.bump "f_read"
+      -- (1) model vs implementation
+      let r := Pop3F.mainF flt uid havedir now files evs
+      let agree := r.out == out1 && r.err == out2 && Int.ofNat r.code == code && fsPairs r.fs == fsPairs after
+      if !agree && st.disagree < 40 then
+        IO.println s!"DISAGREE in={evS} files={filesS} faults={fltS} uid={uid} havedir={hdS} impl_out={o1} impl_err={o2} impl_code={code} impl_after={afterS} model_out={hex r.out} model_code={r.code} model_after={",".intercalate ((fsPairs r.fs).map (fun (p, d) => hex p ++ ":" ++ hex d))}"
+      if !agree then st := { st with disagree := st.disagree + 1 }
+      -- (2) the property under faults, on the implementation's behaviour
+      let mut ok := true
+      if uid != 0 && havedir then
+        let nul := evs.any (fun e => match e with | .data b => b.contains NUL | _ => false)
+        let fs1 := files.filter (fun f => !(f.path.take 4 == tmpSl && (f.path.drop 4).head? != some DOT && now > f.atime + 129600))
+        -- a file whose stat fails during the scan gets no number in this session
+        let elig := (eligibleFiles now fs1).filter (fun f => !flt.a.contains f.path)
+        if nul then st := st.bump "oracle_skipped_nul"
+        else if elig.any (fun f => flt.g.contains f.path) then
+          -- getlist()'s stat failed on a message: the code announces size 0 for it (finding C19-F1, reported;
+          -- outside the property's quantifier). The replies are not judged; the model comparison covers the case.
+          st := st.bump "oracle_skipped_getlist_stat"
+        else
+          let revs := toFEv evs
+          let groups := mtimeGroups elig
+          let judge (numbering : List File) : Bool :=
+            Pop3FRef.faultSessionOk (numbering.map toR) flt.u flt.n (fs1.map toR) revs out1 (after.map toR)
+          let hint := (Pop3F.getlistF flt.a flt.g now fs1).filterMap (fun m => fs1.find? (fun f => f.path == m.fn))
+          let found : Option Bool :=
+            if isAdmissible elig hint && judge hint then some true
+            else if numberingCount groups ≤ numberingCap then some (anyNumbering groups [] judge)
+            else none
+          match found with
+          | none => st := st.bump "oracle_skipped_ties"
+          | some b => ok := b && code == 0 && out2.isEmpty
+          -- what the faults did (evidence that the new paths are hit), read off the implementation's transcript
+          let endsClean := match out1.reverse with | 10 :: 13 :: _ => true | _ => false
+          match Pop3Ref.readLine out1 with
+          | some (_, w) =>
+            match Pop3FRef.fwalk { msgs := hint.map toR } false false revs w with
+            | some e =>
+              if e.died then st := st.bump "f_died_mid_message"
+              if e.died && !endsClean then st := st.bump "f_died_mid_line"
+              if e.died && out1.length > 1030 then st := st.bump "f_died_after_partial_payload"
+              if e.quit && e.nErr > 0 then st := st.bump "f_quit_err_lines"
+            | none => pure ()
+          | none => pure ()
+      if !ok then
+        let seenN : Nat := ((st.counters.find? (fun kv => kv.1 == "oracle_fault")).map (fun kv => kv.2)).getD 0
+        if seenN < 25 then
+          IO.println s!"ORACLE kind=fault in={evS} files={filesS} faults={fltS} uid={uid} havedir={hdS} out={o1} code={code} after={afterS}"
+        st := { st with oracle := st.oracle + 1 }
+        st := st.bump "oracle_fault"
+      if fresh && out1.length > 12 && evs.length ≥ 2 then st := { st with nontrivial := st.nontrivial + 1 }
+      return st
+    | _, _, _, _, _, _, _, _, _ => IO.println s!"DISAGREE unparsable line {line.take 300}"; return { st with disagree := st.disagree + 1 }
+  | _ => IO.println s!"DISAGREE unparsable line {line.take 300}"; return { st with disagree := st.disagree + 1 }
+
+/-! ### maildirs with multi-gigabyte (sparse) files (Z lines, session 4) -/
+
+/-- files of a Z line: a data field `z<size>` is a big file; its `data` becomes the marker "z<size>" (so that the
+model and the reference carry the size along through QUIT's renames) and (path, size) goes into the table -/
+def parseFilesZ (s : String) : Option (List File × List (Bytes × Nat)) :=
+  if s == "-" then some ([], []) else do
+    let es ← (s.splitOn ",").mapM (fun e =>
+      match e.splitOn ":" with
+      | p :: d :: rest => do
+        let p ← unhex p
+        let (d, big) ← (match d.toList with
+          | 'z' :: r => (String.ofList r).toNat?.map (fun n => (d.toUTF8.toList, some n))
+          | _ => (unhex d).map (fun b => (b, none)))
+        let (mt, atm) ← (match rest with
+          | [mt, atm] => do let a ← mt.toNat?; let b ← atm.toNat?; pure (a, b)
+          | [] => some (0, 0)
+          | _ => none)
+        pure (({ path := p, data := d, mtime := mt, atime := atm } : File), big.map (fun n => (p, n)))
+      | _ => none)
+    pure (es.map (·.1), es.filterMap (·.2))
+
+def handleZ (st : Stats) (line : String) (fs : List String) : IO Stats := do
+  match fs with
+  | [uidS, hdS, nowS, filesS, evS, o1, o2, codeS, afterS, _chS] =>
+    match uidS.toNat?, nowS.toNat?, parseFilesZ filesS, parseEvents evS, unhex o1, unhex o2, codeS.toInt?, parseFilesZ afterS with
+    | some uid, some now, some (files, big), some evs, some out1, some out2, some code, some (after, _) =>
+      let h := hashBytes (line.toUTF8.toList.take 4096)
+      let fresh := !st.seen.contains h
+      let havedir := hdS == "1"
+      let mut st := { st with cases := st.cases + 1, seen := st.seen.insert h }
+      st := st.bump "big_file_cases"
+      if big.any (fun (_, n) => n ≥ 4294967296) then st := st.bump "big_size_ge_2^32"
+      if big.all (fun (_, n) => n < 4294967296) && (big.foldl (fun t (_, n) => t + n) 0) ≥ 4294967296 then st := st.bump "big_total_ge_2^32"
+      let r := Pop3F.mainS big uid havedir now files evs
+      let agree := r.out == out1 && r.err == out2 && Int.ofNat r.code == code && fsPairs r.fs == fsPairs after
+      if !agree && st.disagree < 40 then
+        IO.println s!"DISAGREE in={evS} files={filesS} uid={uid} havedir={hdS} impl_out={o1} impl_err={o2} impl_code={code} impl_after={afterS} model_out={hex r.out} model_code={r.code}"
+      if !agree then st := { st with disagree := st.disagree + 1 }
+      -- the property: listed sizes and STAT's total against the true st_size (unbounded)
+      let fs1 := files.filter (fun f => !(f.path.take 4 == tmpSl && (f.path.drop 4).head? != some DOT && now > f.atime + 129600))
+      let revs := toREv evs
+      let elig := eligibleFiles now fs1
+      let groups := mtimeGroups elig
+      let judge (numbering : List File) : Bool :=
+        Pop3SRef.sessionOkS big (numbering.map toR) (fs1.map toR) revs out1 (after.map toR)
+      let hint := (getlist now fs1).filterMap (fun m => fs1.find? (fun f => f.path == m.fn))
+      let ok := uid != 0 && havedir && code == 0 && out2.isEmpty &&
+        ((isAdmissible elig hint && judge hint) || (numberingCount groups ≤ numberingCap && anyNumbering groups [] judge))
+      if !ok then
+        IO.println s!"ORACLE kind=size in={evS} files={filesS} uid={uid} havedir={hdS} out={o1} code={code} after={afterS}"
+        st := { st with oracle := st.oracle + 1 }
+        st := st.bump "oracle_size"
+      if fresh then st := { st with nontrivial := st.nontrivial + 1 }
+      return st
+    | _, _, _, _, _, _, _, _ => IO.println s!"DISAGREE unparsable line {line.take 300}"; return { st with disagree := st.disagree + 1 }
+  | _ => IO.println s!"DISAGREE unparsable line {line.take 300}"; return { st with disagree := st.disagree + 1 }
+
 def splitLines (b : Bytes) : List Bytes :=
   let (_, acc) := b.foldl (fun (ca : Bytes × List Bytes) c =>
     if c == LF then ([], ca.1.reverse :: ca.2) else (c :: ca.1, ca.2)) ([], [])
@@ -310,6 +474,8 @@ def handle (st : Stats) (line : String) : IO Stats := do
   match fields line with
   | "P" :: rest => handleP st line rest
   | "U" :: rest => handleU st line rest
+  | "F" :: rest => handleF st line rest
+  | "Z" :: rest => handleZ st line rest
   | "H" :: rest => handleH st line rest
   | [] => return st
   | _ => IO.println s!"DISAGREE unparsable line {line.take 300}"; return { st with disagree := st.disagree + 1 }
